@@ -133,7 +133,7 @@ bool BuildLog::OpenForWriteIfNeeded() {
   if (log_file_ || log_file_path_.empty()) {
     return true;
   }
-  log_file_ = fopen(log_file_path_.c_str(), "ab");
+  log_file_ = fopen(log_file_path_.c_str(), "a+b");
   if (!log_file_) {
     return false;
   }
@@ -148,6 +148,14 @@ bool BuildLog::OpenForWriteIfNeeded() {
 
   if (ftell(log_file_) == 0) {
     if (fprintf(log_file_, kFileSignature, kCurrentVersion) < 0) {
+      return false;
+    }
+  } else if (fseek(log_file_, -1, SEEK_END) == 0) {
+    // A previous run may have died in the middle of a write. Terminate a
+    // torn last line so that it cannot merge with the first record we append.
+    int last = fgetc(log_file_);
+    fseek(log_file_, 0, SEEK_END);
+    if (last != '\n' && fputc('\n', log_file_) == EOF) {
       return false;
     }
   }
